@@ -117,6 +117,11 @@ Proof.
 Qed.
 Print Assumptions C09_acyclic_docs_index.
 
+(* the premise is decidable; unique_keysb is what the correspondence judge evaluates (bit 4) *)
+Theorem C09_unique_keys_decided : forall ds, unique_keysb ds = true <-> unique_keys ds.
+Proof. exact unique_keysb_spec. Qed.
+Print Assumptions C09_unique_keys_decided.
+
 (* non-vacuity: the premises hold for the five-document witness set of D22 *)
 Example C09_premises_inhabited : unique_keys wit_docs /\ acyclic_docs wit_docs.
 Proof. exact wit_premises. Qed.
